@@ -13,7 +13,7 @@ This interprets branch conditions only; no statement of the analysed program is 
 from collections import deque
 
 import q
-from mir import Bin, Call, Cast, Const, Deref, Discr, Field, Named, Ref, Un, Var
+from mir import Agg, Bin, Call, Cast, Const, Deref, Discr, Field, Named, Ref, Un, Var
 
 MASKS = {"u8": 0xFF, "u16": 0xFFFF, "u32": 0xFFFFFFFF, "u64": (1 << 64) - 1, "usize": (1 << 64) - 1}
 
@@ -41,6 +41,10 @@ def eval_expr(e, env, roles=None):
         if isinstance(inner, Bin) and inner.op.endswith("WithOverflow"):
             return eval_expr(inner, env, roles)
         return None
+    if isinstance(e, Agg) and e.ak == "adt" and not e.ops and "vi" in e.rv:
+        return e.rv["vi"]  # unit enum variant: its discriminant index
+    if isinstance(e, Discr):
+        return eval_expr(e.x, env, roles)
     if isinstance(e, Cast):
         v = eval_expr(e.x, env, roles)
         if v is None:
@@ -268,3 +272,80 @@ class _ArgEnv(dict):
 
     def __contains__(self, k):
         return k == "arg%d" % self.local
+
+
+def walk(body, start, env, roles=None, stop=(), max_steps=400):
+    """Follow the unique path from `start` that env determines. Returns (events, end) where
+    events is a list of tuples:
+        ("store", field_name, value_or_None, bb)   - assignment to a place ending in a field
+        ("call", nice_name, shape, bb)
+        ("ret", variant_or_None, shape, bb)        - value stored to the return place
+    and end is ("return", bb) | ("stop", bb) | ("undecided", bb) | ("limit", bb).
+    Multi-definition locals are tracked in a store (constant propagation along the path)."""
+    store = {}
+    events = []
+    b = start
+    stop = set(stop)
+    first = True
+    for _ in range(max_steps):
+        if b in stop and not first:
+            return events, ("stop", b)
+        first = False
+        cur = _StoreEnv(env, store)
+        blk = body.blocks[b]
+        for s in blk["stmts"]:
+            if s["k"] != "assign":
+                continue
+            pl = s["place"]
+            ex = body.expr_of_rvalue(s["rv"])
+            v = eval_expr(ex, cur, roles)
+            if not pl["p"]:
+                l = pl["l"]
+                if l == 0:
+                    variant = ex.variant if hasattr(ex, "variant") else None
+                    events.append(("ret", variant, q.shape(ex, roles), b))
+                if len(body.defs.get(l, [])) > 1:
+                    if v is None:
+                        store.pop(l, None)
+                    else:
+                        store[l] = v
+                    if body.var_names.get(l) is not None:
+                        events.append(("assign", l, v, b))
+            elif pl["p"][-1].get("k") == "field":
+                events.append(("store", pl["p"][-1].get("n"), v, b))
+        t = blk["term"]
+        k = t["k"]
+        if k == "return":
+            return events, ("return", b)
+        if k == "goto":
+            b = t["t"]
+        elif k == "switch":
+            v = eval_expr(body.expr_of_operand(t["discr"]), cur, roles)
+            if v is None:
+                return events, ("undecided", b)
+            tgt = None
+            for val, tb in t["arms"]:
+                if val == v:
+                    tgt = tb
+            b = tgt if tgt is not None else t["otherwise"]
+        elif k == "call":
+            ex = body.expr_of_call(t)
+            events.append(("call", q.nice(t.get("callee")), q.shape(ex, roles), b))
+            if not t["dest"]["p"]:
+                l = t["dest"]["l"]
+                if l == 0:
+                    events.append(("ret", None, q.shape(ex, roles), b))
+                if len(body.defs.get(l, [])) > 1:
+                    v = eval_expr(ex, cur, roles)
+                    if v is None:
+                        store.pop(l, None)
+                    else:
+                        store[l] = v
+            if "t" not in t:
+                return events, ("diverge", b)
+            b = t["t"]
+        elif k in ("assert", "drop"):
+            b = t["t"]
+        else:
+            return events, ("undecided", b)
+    return events, ("limit", b)
